@@ -22,6 +22,7 @@ type nativeFn func(fr *frame, args []value) value
 type stringsBuilder struct{ strings.Builder }
 
 var natives = map[string]nativeFn{}
+var summaries = map[string]nativeFn{}
 var vfNatives = map[string]nativeFn{}
 var pkgInitHooks = map[string]func(i *interpreter, pkg *ssa.Package){}
 
@@ -44,6 +45,9 @@ func (L *Loaded) lookupNative(fn *ssa.Function, name, oname string) nativeFn {
 		}
 	}
 	if nf, ok := natives[name]; ok {
+		return nf
+	}
+	if nf, ok := summaries[name]; ok && !L.noSummary[name] {
 		return nf
 	}
 	if oname != "" {
@@ -772,6 +776,39 @@ func init() {
 
 	natives["google.golang.org/protobuf/internal/detrand.Bool"] = func(fr *frame, a []value) value { return false }
 	natives["google.golang.org/protobuf/internal/detrand.Intn"] = func(fr *frame, a []value) value { return 0 }
+	// ---------------- summaries of pure library kernels ----------------
+	// protowire.SizeVarint(v) = (9*bits.Len64(v)+64)/64, summarised as
+	// 1 + #{k in 1..9 : v >= 2^(7k)}. The lemma harness VfSizeVarintLemma
+	// (spec option "no_summaries") checks the summary against the real body.
+	summaries["google.golang.org/protobuf/encoding/protowire.SizeVarint"] = func(fr *frame, a []value) value {
+		t, ok := a[0].(*Term)
+		if !ok {
+			return fr.interpretBody(a)
+		}
+		tc := fr.i.tc
+		res := tc.Const(64, 1)
+		for s := uint(7); s < 64; s += 7 {
+			res = tc.Bin(OpAdd, res, tc.Ite(tc.Cmp(OpUle, tc.Const(64, uint64(1)<<s), t), tc.Const(64, 1), tc.Const(64, 0)))
+		}
+		return wrapK(types.Int, res)
+	}
+	// ---------------- tracing ----------------
+	startSpan := func(fr *frame, a []value) value {
+		tp := fr.i.prog.ImportedPackage("go.opentelemetry.io/otel/trace")
+		var span value = iface{}
+		if tp != nil {
+			if t := tp.Type("noopSpan"); t != nil {
+				span = iface{t: t.Type(), v: zero(t.Type())}
+			}
+		}
+		return tuple{a[0], span}
+	}
+	natives["github.com/libp2p/go-libp2p-kad-dht/internal.StartSpan"] = startSpan
+	for _, n := range []string{
+		"github.com/libp2p/go-libp2p-kad-dht/internal.KeyAsAttribute",
+	} {
+		natives[n] = func(fr *frame, a []value) value { return zeroResults(fr.fn.Signature) }
+	}
 	// ---------------- uuid / rand ----------------
 	natives["github.com/google/uuid.New"] = func(fr *frame, a []value) value {
 		out := make(array, 16)
